@@ -139,3 +139,52 @@ var _ = netip.Addr{}
 // VerifH_C04_FastHTTPBodyOwnership: the same handler under the no-mix-up property: the response body the server writes
 // after the handler returned is this query's response even though the buffer pool is busy in between.
 func VerifH_C04_FastHTTPBodyOwnership() { VerifH_C03_FastHTTP() }
+
+// VerifH_C15_FastHTTPClientAddrHeader: behind a reverse proxy the fasthttp DoH listener takes the client from the
+// configured header: whatever is charged for the query (the cost of the work done for it) is charged to the FIRST
+// address of the header — never to the proxy's own address —, and a header value that is not an address (arbitrary ≤ 3
+// octets, or text) is a 400 without any charge or upstream exchange. (The handler never panics on hostile header octets.)
+func VerifH_C15_FastHTTPClientAddrHeader() {
+	verifrt.Unwind(400)
+	verifrt.CtxNoExpiry = true
+	up := &vKeyedUpstream{}
+	r, charges := vLimitedRouter(up)
+	h := &fasthttpHandler{r: r, path: "/dns-query", clientAddrHeader: "X-Forwarded-For", logger: r.logger}
+	const q64 = "EjQBAAABAAAAAAAAAXEAAAEAAQ"
+	f := &vFastReq{path: "/dns-query", method: "GET", accept: []byte("application/dns-message"), dns: []byte(q64),
+		remote: &net.TCPAddr{IP: net.IP{192, 0, 2, 200}, Port: 4444}} // the reverse proxy
+	forms := []struct {
+		v    []byte
+		want netip.Addr
+		ok   bool
+	}{
+		{[]byte("203.0.113.9"), netip.AddrFrom4([4]byte{203, 0, 113, 9}), true},
+		{[]byte("203.0.113.9, 10.0.0.1"), netip.AddrFrom4([4]byte{203, 0, 113, 9}), true},
+		{[]byte("2001:db8::5,10.0.0.1"), netip.AddrFrom16([16]byte{0x20, 0x01, 0x0d, 0xb8, 0, 0, 0, 0, 0, 0, 0, 0, 0, 0, 0, 5}), true},
+		{[]byte("not-an-address"), netip.Addr{}, false},
+		{nil, netip.Addr{}, false}, // filled below: arbitrary short octets
+	}
+	k := verifrt.Choose("header", len(forms))
+	fm := forms[k]
+	if k == 4 {
+		fm.v = verifrt.Bytes("xff", 3)
+		verifrt.Assume(len(fm.v) > 0)
+		for _, c := range fm.v {
+			verifrt.Assume(!(c >= '0' && c <= '9') && c != ':') // cannot be (the start of) an address
+		}
+	}
+	f.xff = fm.v
+	vFastStubs(f)
+	var ctx fasthttp.RequestCtx
+	h.HandleFastHTTP(&ctx)
+	verifrt.Reach("served")
+	if !fm.ok {
+		verifrt.Assert(f.status == fasthttp.StatusBadRequest && len(*charges) == 0 && up.calls == 0 && len(f.bodies) == 0, "an unusable header value: 400, nothing charged, nothing forwarded")
+		return
+	}
+	verifrt.Reach("answered")
+	verifrt.Assert(len(f.bodies) == 1, "answered")
+	for _, c := range *charges {
+		verifrt.Assert(c.addr == fm.want, "every charge goes to the client named in the header (first hop), never to the proxy")
+	}
+}
